@@ -238,7 +238,7 @@ class Engine(object):
         eng = self
         cls = g.cls
         hook = getattr(interp.ctx, 'method_hook', None)
-        if hook is not None:
+        if hook is not None and (getattr(hook, 'names', None) is None or name in hook.names):
             # a forwarding contract observes every method call on the graph instead of executing it
             return VCallable(lambda i, a, k, f: hook(i, g, name, a, k), 'hooked::' + name)
         if name in ('adjlist_inner_dict_factory', 'adjlist_outer_dict_factory', 'node_dict_factory',
@@ -364,6 +364,9 @@ def b_len(interp, argv, kwv, fr):
         return VInt(v.w.PL(v.c))
     if v.kind == 'trp':
         return VInt(v.n)
+    if v.kind in ('line', 'fields'):
+        from .linemodel import line_len
+        return line_len(interp, v)
     if v.kind == 'nodedict':
         from .loops import VBag
         NodeIn = v.g['NodeIn']
